@@ -76,7 +76,15 @@ def du_value(fi, nm, strict=True):
     if fi._mutated_in_place(nm.id):
         return None
     use = fi.stmt(nm)
-    for m in walk_expr(v):
+    operands = list(walk_expr(v))
+    for c in list(operands):
+        # a call of a local single-expression helper also reads the variables
+        # of the enclosing function the helper closes over
+        if isinstance(c, ast.Call):
+            h = local_helper(fi, c.func)
+            if h is not None:
+                operands += [x for x in ast.walk(h[1]) if isinstance(x, ast.Name) and x.id not in h[0]]
+    for m in operands:
         if not (isinstance(m, ast.Name) and isinstance(m.ctx, ast.Load)):
             continue
         if fi.rd.defs_at(site, m.id) != fi.rd.defs_at(use, m.id):
@@ -145,11 +153,18 @@ def du_expand(fi, expr, stop=(), strict=True, depth=8, inline=True):
     the attribute `_orig` (that node), so that reaching definitions can still
     be asked for the operands of the expanded expression."""
 
-    def subst(e, env):
+    def subst(e, env, at=None):
         if isinstance(e, ast.Name):
             if e.id in env and isinstance(e.ctx, ast.Load):
                 return env[e.id]
-            return ast.Name(id=e.id, ctx=e.ctx)
+            n = ast.Name(id=e.id, ctx=e.ctx)
+            if at is not None and isinstance(e.ctx, ast.Load):
+                # a free name of the helper: the closure reads the variable of
+                # the enclosing function when the CALL is evaluated - the
+                # provenance of the read is the statement of the call
+                fi.stmt_of[n] = at
+                n._orig = n
+            return n
         if not isinstance(e, ast.AST):
             return e
         if isinstance(e, (ast.expr_context, ast.operator, ast.unaryop, ast.boolop, ast.cmpop)):
@@ -158,9 +173,9 @@ def du_expand(fi, expr, stop=(), strict=True, depth=8, inline=True):
         for f in e._fields:
             val = getattr(e, f, None)
             if isinstance(val, list):
-                setattr(new, f, [subst(x, env) for x in val])
+                setattr(new, f, [subst(x, env, at) for x in val])
             elif isinstance(val, ast.AST):
-                setattr(new, f, subst(val, env))
+                setattr(new, f, subst(val, env, at))
             else:
                 setattr(new, f, val)
         return new
@@ -183,7 +198,12 @@ def du_expand(fi, expr, stop=(), strict=True, depth=8, inline=True):
             h = local_helper(fi, e.func)
             if h is not None and len(h[0]) == len(e.args):
                 env = dict(zip(h[0], [ex(a, d) for a in e.args]))
-                return subst(h[1], env)
+                at = None
+                try:
+                    at = fi.stmt(getattr(e, '_src', e))
+                except Exception:
+                    pass
+                return subst(h[1], env, at)
         new = type(e)()
         for f in e._fields:
             val = getattr(e, f, None)
@@ -2177,12 +2197,17 @@ def d5_triangle(ck):
         # --- the plain branch: the candidate committed is otherwise the full distance computation
         commits = [(a, t) for a, t in subscript_stores(fn, D) if isinstance(a, ast.Assign)
                    and isinstance(a.value, ast.Subscript) and isinstance(a.value.value, ast.Name)]
-        if len(commits) != 1 or len(cands) != 1:
+        Xs = [a.value.value for a, t in commits]
+        if not commits:
+            # the commit spelled as an elementwise minimum: np.minimum(D, X, out=D)
+            for ms, xname, kind in min_updates(fi, fn, D):
+                Xs += [n_ for n_ in walk_expr(ms.value) if isinstance(n_, ast.Name) and n_.id == xname
+                       and isinstance(n_.ctx, ast.Load)][:1]
+        if len(Xs) != 1 or len(cands) != 1:
             ck.missing(rule + '.plain', '%s: commit `%s[<mask>] = <candidate>[<mask>]` of the candidate (found %d, candidates %s)' % (
-                q, D, len(commits), sorted(cands)))
+                q, D, len(Xs), sorted(cands)))
             continue
-        ca, ct = commits[0]
-        X = ca.value.value
+        X = Xs[0]
         cand = next(iter(cands))
         # the objects the committed name can denote (a definition `x = y` makes
         # x denote the very object y denotes: followed to the creating sites)
@@ -2481,6 +2506,110 @@ def _is_commit_store(fi, st, t, D):
     return u(big) == D and u(small) == v.value.id
 
 
+_MIN_FUNCS = ('np.minimum', 'np.fmin', 'numpy.minimum', 'numpy.fmin')
+
+
+def min_updates(fi, fn, D):
+    """[(statement, candidate name, kind)] for every statement that replaces
+    the array D by the elementwise minimum of itself and ONE other array X
+    (a plain name): `np.minimum(D, X, out=D)` (operands in either order, out
+    by keyword or third position), `D[:] = np.minimum(D, X)` / `D[...] = ...`
+    (kind 'inplace') and the rebinding `D = np.minimum(D, X)` (kind 'rebind').
+    After such a statement D IS the running minimum over the old D and X -
+    but the OLD values of D are gone."""
+    def operands(c):
+        if not (isinstance(c, ast.Call) and (call_name(c) or '') in _MIN_FUNCS):
+            return None, None
+        if any(isinstance(a, ast.Starred) for a in c.args) or len(c.args) not in (2, 3):
+            return None, None
+        out = c.args[2] if len(c.args) == 3 else None
+        for k in c.keywords:
+            if k.arg == 'out' and out is None:
+                out = k.value
+            elif k.arg is None or k.arg in ('out', 'where'):
+                return None, None
+        a, b = c.args[0], c.args[1]
+        if not (isinstance(a, ast.Name) and isinstance(b, ast.Name)) or {a.id, b.id} == {D} or D not in (a.id, b.id):
+            return None, None
+        return (b.id if a.id == D else a.id), out
+    res = []
+    for st in walk_local(fn):
+        if isinstance(st, ast.Expr):
+            X, out = operands(st.value)
+            if X is not None and isinstance(out, ast.Name) and out.id == D:
+                res.append((st, X, 'inplace'))
+        elif isinstance(st, ast.Assign) and len(st.targets) == 1:
+            X, out = operands(st.value)
+            if X is None:
+                continue
+            t = st.targets[0]
+            if out is not None and not (isinstance(out, ast.Name) and out.id == D):
+                continue
+            if isinstance(t, ast.Name) and t.id == D:
+                res.append((st, X, 'inplace' if out is not None else 'rebind'))
+            elif isinstance(t, ast.Subscript) and isinstance(t.value, ast.Name) and t.value.id == D and out is None and (
+                    (isinstance(t.slice, ast.Slice) and t.slice.lower is None and t.slice.upper is None and t.slice.step is None)
+                    or (isinstance(t.slice, ast.Constant) and t.slice.value is Ellipsis)):
+                res.append((st, X, 'inplace'))
+    return res
+
+
+def d5_label_mask_after_min(ck, mod, q, fi, fn, R, mins):
+    """The distance part of the commit may be spelled as an elementwise
+    minimum (`np.minimum(D, X, out=D)`): D stays the running minimum.  The
+    LABEL part must still change exactly the frames with X < D_old (strict:
+    the frames skipped by the triangle-inequality shortcut carry X == D_old
+    and were never compared with the new centre).  Once the minimum has
+    overwritten D, D_new == X holds for X < D_old AND for X == D_old alike, so
+    no comparison of the updated D with X selects that set: a label store
+    whose mask is such a comparison, reading D after the update, is a
+    VIOLATION; a mask taken from D before the update is judged as usual;
+    anything else is not recognised."""
+    rule = 'C02.D5.commit.label-mask'
+    D, A, L = R['D'], R['A'], R['L']
+    for ms, X, kind in mins:
+        stores = [(st, t) for st, t in subscript_stores(fn, A) if isinstance(st, ast.Assign)]
+        if not stores:
+            ck.missing(rule, '%s: `%s` commits the distances as an elementwise minimum, but no masked store into the label '
+                       'array `%s` was found' % (q, u(ms)[:100], A))
+            continue
+        for st, t in stores:
+            m = du_expand(fi, t.slice, stop=(D, X), strict=False, inline=False)
+            mc = cx(m)
+            if not (isinstance(mc, ast.Compare) and len(mc.ops) == 1
+                    and {u(mc.left), u(mc.comparators[0])} == {D, X}):
+                ck.missing(rule, '%s: mask of the label store `%s` next to the minimum commit `%s` is not a comparison of '
+                           '`%s` and `%s`' % (q, u(st)[:100], u(ms)[:80], X, D))
+                continue
+            reads = origins(m, D)
+            where = [fi.stmt(o) if o is not None else None for o in reads]
+            if not where or any(wst is None for wst in where):
+                ck.missing(rule, '%s: where the mask of `%s` reads `%s` is not established' % (q, u(st)[:100], D))
+                continue
+            post = all(wst is not ms and fi.cfg.dominates(ms, wst) for wst in where)
+            pre = all(wst is not ms and fi.cfg.dominates(wst, ms) and not fi.cfg.reachable(ms, wst) for wst in where)
+            less = Cmp(mc.left, type(mc.ops[0]), mc.comparators[0]).as_less()
+            if post:
+                ck.bad(rule, mod, st, q, u(st)[:200],
+                       'the label store is masked by `%s`, evaluated AFTER `%s` has replaced `%s` by min(`%s`, `%s`): the '
+                       'updated array equals the candidate `%s` both where the new centre is strictly closer and where it '
+                       'merely ties with the stored distance, so this mask cannot select exactly the frames with `%s < %s` '
+                       '(old values). Every frame the triangle-inequality shortcut skipped (its candidate is a copy of its '
+                       'stored distance) is relabelled to the new centre without having been compared with it; labels no '
+                       'longer name the nearest centre and the next pruning pass (cc_dists[labels]) skips frames that must be '
+                       'recomputed. The mask must be computed from the distances before the commit overwrites them' % (
+                           ctext(mc), u(ms)[:80], D, D, X, X, X, D))
+            elif pre and less is not None and u(less[0]) == X and u(less[2]) == D:
+                ck.check(less[1], rule, mod, st, q, u(st)[:200],
+                         'label mask `%s < %s` taken from the distances before the minimum commit' % (X, D),
+                         'the label mask must be the STRICT test `%s < %s` on the distances before the commit: with <= the '
+                         'frames whose candidate equals the stored distance (all frames skipped by the triangle-inequality '
+                         'shortcut) are relabelled without being nearer to the new centre' % (X, D))
+            else:
+                ck.missing(rule, '%s: mask `%s` of the label store `%s` relative to the minimum commit `%s`' % (
+                    q, ctext(mc)[:80], u(st)[:80], u(ms)[:80]))
+
+
 def d5_sole_writer(ck):
     """The array the next centre is the argmax of is the RUNNING MINIMUM of
     the distances to the centres chosen so far only if nothing but the commit
@@ -2500,12 +2629,28 @@ def d5_sole_writer(ck):
         D = iteration_roles(fn)['D']
         recs = [r for r in ea.store_records(KC, q) if D in r.get('params', ())]
         seen = set()
+        mins = min_updates(fi, fn, D)
+        if mins:
+            d5_label_mask_after_min(ck, mod, q, fi, fn, iteration_roles(fn), mins)
+        for ms, X, kind in mins:
+            if kind == 'rebind':
+                n += 1
+                ck.ok(rule, mod, ms, u(ms), 'the running-minimum commit, spelled as an elementwise minimum with `%s`' % X)
         for r in recs:
             node = r.get('node')
             if id(node) in seen:
                 continue
             seen.add(id(node))
             st = node if isinstance(node, ast.stmt) else None
+            try:
+                host = st if st is not None else fi.stmt(node)
+            except Exception:
+                host = None
+            hit = [m for m in mins if m[0] is host and m[2] == 'inplace']
+            if hit:
+                n += 1
+                ck.ok(rule, mod, host, u(host), 'the running-minimum commit, spelled as an elementwise minimum with `%s`' % hit[0][1])
+                continue
             tgts = []
             if isinstance(st, ast.Assign):
                 tgts = [tt for t in st.targets for tt in (t.elts if isinstance(t, (ast.Tuple, ast.List)) else [t])
